@@ -326,7 +326,7 @@ func (g *G) Service(kind int) knxnet.ServicePackable {
 			id++
 		}
 		n := g.Pick(0, 1, 2, 10, 100)
-		frame := append([]byte{6, 16, byte(id >> 8), byte(id), 0, 0}, g.Bytes(n)...)
+		frame := append([]byte{6, 16, byte(id >> 8), byte(id), byte((6 + n) >> 8), byte(6 + n)}, g.Bytes(n)...)
 		var s knxnet.Service
 		if _, err := knxnet.Unpack(frame, &s); err != nil {
 			panic(err)
